@@ -4,7 +4,7 @@
    [to_dense] lists the lines, i.e. it is the dense matrix (csr) or its transpose (csc). *)
 From Coq Require Import List ZArith Arith Lia.
 Import ListNotations.
-From PP Require Import Lib.Csr Model.C35 Proofs.C35 Proofs.C35_rl Proofs.C35_csr.
+From PP Require Import Lib.Csr Model.C35 Proofs.C35 Proofs.C35_rl Proofs.C35_csr Proofs.C35_zero Proofs.C35_merge Proofs.C35_bdi.
 
 (* expand_index_pointers(lo, hi) is the concatenation of np.arange(lo_k, hi_k) over all k,
    for integer bounds of any sign and any order (empty ranges where hi_k <= lo_k),
@@ -126,6 +126,119 @@ Theorem C35_stack_diag_dense :
 Proof. exact stack_diag_dense. Qed.
 Print Assumptions C35_stack_diag_dense.
 
+(* rldecode for operands of any length: np.repeat over the common prefix as long as no
+   positive count lies beyond the end of A, IndexError otherwise *)
+Theorem C35_rldecode_general :
+  forall (T : Type) (A : list T) (n : list Z),
+    rldecode A n
+    = if forallb nonpos (skipn (length A) n)
+      then Ok (flat_map (fun ac => repeat (fst ac) (Z.to_nat (snd ac))) (combine A n))
+      else Err IndexErr.
+Proof. exact rldecode_general. Qed.
+Print Assumptions C35_rldecode_general.
+
+(* zero_rows (csr) / zero_columns (csc): the entries of the selected lines (any order,
+   repeats) get the value 0, every other entry and the structure are untouched ... *)
+Theorem C35_zero_lines_rows :
+  forall (A : csr) (ind : list nat), wf A = true -> Forall (fun l => l < nmaj A) ind ->
+    exists Z0, zero_lines A ind = Ok Z0 /\
+      nmaj Z0 = nmaj A /\ nmin Z0 = nmin A /\ indptr Z0 = indptr A /\ indices Z0 = indices A /\
+      rows Z0 = map (fun i => if existsb (Nat.eqb i) ind then map zero_entry (nth i (rows A) [])
+                              else nth i (rows A) []) (seq 0 (nmaj A)).
+Proof. exact zero_lines_rows. Qed.
+Print Assumptions C35_zero_lines_rows.
+
+(* ... densely: A[ind, :] = 0 (csr) resp. A[:, ind] = 0 (csc) *)
+Theorem C35_zero_lines_dense :
+  forall (A : csr) (ind : list nat), wf A = true -> Forall (fun l => l < nmaj A) ind ->
+    exists Z0, zero_lines A ind = Ok Z0 /\ indptr Z0 = indptr A /\ indices Z0 = indices A /\
+      to_dense Z0 = map (fun i => if existsb (Nat.eqb i) ind then repeat 0%Z (nmin A)
+                                  else nth i (to_dense A) []) (seq 0 (nmaj A)).
+Proof. exact zero_lines_dense. Qed.
+Print Assumptions C35_zero_lines_dense.
+
+Theorem C35_zero_lines_error :
+  forall (A : csr) (ind : list nat), ~ Forall (fun l => l < nmaj A) ind ->
+    zero_lines A ind = Err IndexErr.
+Proof. exact zero_lines_error. Qed.
+Print Assumptions C35_zero_lines_error.
+
+(* expand_indices_nd: the ravel (order F / C) of the broadcast array nd*ind + arange(nd)[:,None]
+   is, per index, its nd components (F) resp. per component all indices (C) *)
+Theorem C35_expand_indices_nd_F :
+  forall (ind : list Z) (nd : nat),
+    expand_indices_nd ind nd true
+    = flat_map (fun i => map (fun d => (Z.of_nat nd * i + Z.of_nat d)%Z) (seq 0 nd)) ind.
+Proof. exact expand_indices_nd_F. Qed.
+Print Assumptions C35_expand_indices_nd_F.
+
+Theorem C35_expand_indices_nd_C :
+  forall (ind : list Z) (nd : nat),
+    expand_indices_nd ind nd false
+    = flat_map (fun d => map (fun i => (Z.of_nat nd * i + Z.of_nat d)%Z) ind) (seq 0 nd).
+Proof. exact expand_indices_nd_C. Qed.
+Print Assumptions C35_expand_indices_nd_C.
+
+(* expand_indices_add_increment: every value followed by its n-1 incremented repetitions *)
+Theorem C35_expand_indices_add_increment :
+  forall (x : list Z) (n : nat) (incr : Z),
+    expand_indices_add_increment x n incr
+    = flat_map (fun v => map (fun k => (v + incr * Z.of_nat k)%Z) (seq 0 n)) x.
+Proof. exact expand_indices_add_increment_spec. Qed.
+Print Assumptions C35_expand_indices_add_increment.
+
+(* merge_matrices (as repaired): for every well-formed A and B with the same minor extent
+   and every list of distinct valid line numbers IN ANY ORDER, line lines[k] of the result is
+   line k of B, every other line is the line of A, entry by entry in storage order
+   ([merged_line] looks a line number up in the association list lines ~ lines of B) ... *)
+Theorem C35_merge_rows :
+  forall (A B : csr) (lines : list nat),
+    wf A = true -> wf B = true -> nmin A = nmin B -> length lines = nmaj B ->
+    NoDup lines -> Forall (fun l => l < nmaj A) lines ->
+    exists C, merge_matrices A B lines = Ok C /\ nmaj C = nmaj A /\ nmin C = nmin A /\
+      rows C = map (merged_line lines (rows B) (fun i => nth i (rows A) [])) (seq 0 (nmaj A)).
+Proof. exact merge_rows. Qed.
+Print Assumptions C35_merge_rows.
+
+(* ... densely: A[lines, :] = B (csr) resp. A[:, lines] = B (csc) *)
+Theorem C35_merge_dense :
+  forall (A B : csr) (lines : list nat),
+    wf A = true -> wf B = true -> nmin A = nmin B -> length lines = nmaj B ->
+    NoDup lines -> Forall (fun l => l < nmaj A) lines ->
+    exists C, merge_matrices A B lines = Ok C /\
+      to_dense C = map (merged_line lines (to_dense B) (fun i => nth i (to_dense A) [])) (seq 0 (nmaj A)).
+Proof. exact merge_dense. Qed.
+Print Assumptions C35_merge_dense.
+
+(* the three input checks answer ValueError *)
+Theorem C35_merge_value_errors :
+  forall (A B : csr) (lines : list nat),
+    (nmin A <> nmin B -> merge_matrices A B lines = Err ValueErr) /\
+    (nmin A = nmin B -> length lines <> nmaj B -> merge_matrices A B lines = Err ValueErr) /\
+    (nmin A = nmin B -> length lines = nmaj B -> ~ NoDup lines -> merge_matrices A B lines = Err ValueErr).
+Proof.
+  intros A B lines. split; [apply merge_shape_mismatch|split; [apply merge_count_mismatch|apply merge_duplicate]].
+Qed.
+Print Assumptions C35_merge_value_errors.
+
+(* block_diag_index(m): the column indices of a block diagonal csr matrix with square blocks
+   of sizes m (zero sizes allowed): block after block, the block's index range once per row
+   (the slice-by-slice construction in the code) *)
+Theorem C35_block_diag_index_square :
+  forall m : list nat, block_diag_index1 m = bdi1_spec 0 m.
+Proof. exact bdi1_closed_form. Qed.
+Print Assumptions C35_block_diag_index_square.
+
+(* block_diag_index(m, n): for blocks with m_k rows and n_k columns (zero extents allowed) the
+   row indices are, per block, its row range once per column, and the column indices, per
+   block and column, the column number once per row (composition of cumsum, rldecode x4,
+   expand_index_pointers and arange in the code) *)
+Theorem C35_block_diag_index_rect :
+  forall m n : list Z, length m = length n -> Forall (fun x => 0 <= x)%Z n ->
+    block_diag_index2 m n = Ok (bdi2_i 0 (combine m n), bdi2_j 0 (combine m n)).
+Proof. exact bdi2_closed_form. Qed.
+Print Assumptions C35_block_diag_index_rect.
+
 (* ---------------------------------------------------------------- non-vacuity *)
 
 Example C35_nonvacuous_expand :
@@ -158,3 +271,33 @@ Proof.
   split; [eexists; split; [vm_compute; reflexivity|split; vm_compute; reflexivity]|].
   vm_compute. reflexivity.
 Qed.
+
+Example C35_nonvacuous_zero_expand :
+  (exists Z0, zero_lines C35_ex [2; 2] = Ok Z0 /\ data Z0 = [5; 1; 7; 0; 0; 0]%Z /\
+              to_dense Z0 = [[1; 0; 12; 0]; [0; 0; 0; 0]; [0; 0; 0; 0]]%Z) /\
+  expand_indices_nd [0; 1; 3]%Z 3 false = [0; 3; 9; 1; 4; 10; 2; 5; 11]%Z /\
+  expand_indices_nd [0; 1; 3]%Z 2 true = [0; 1; 2; 3; 6; 7]%Z /\
+  expand_indices_add_increment [0; 1; 3]%Z 3 200 = [0; 200; 400; 1; 201; 401; 3; 203; 403]%Z /\
+  rldecode [8; 2]%Z [1; 0; 2]%Z = Err IndexErr /\ rldecode [8; 2]%Z [1; 2; 0]%Z = Ok [8; 2; 2]%Z.
+Proof.
+  split; [eexists; split; [vm_compute; reflexivity|split; vm_compute; reflexivity]|].
+  vm_compute. repeat split; reflexivity.
+Qed.
+
+Example C35_nonvacuous_merge :
+  let B := {| nmaj := 2; nmin := 4; indptr := [0; 1; 3]; indices := [3; 1; 0]; data := [7; 8; 9]%Z |} in
+  wf B = true /\ NoDup [2; 0] /\ Forall (fun l => l < nmaj C35_ex) [2; 0] /\
+  exists C, merge_matrices C35_ex B [2; 0] = Ok C /\
+            indptr C = [0; 2; 2; 3] /\ indices C = [1; 0; 3] /\ data C = [8; 9; 7]%Z /\
+            to_dense C = [[9; 8; 0; 0]; [0; 0; 0; 0]; [0; 0; 0; 7]]%Z.
+Proof.
+  cbv zeta. split; [reflexivity|]. split; [repeat constructor; simpl; intuition discriminate|].
+  split; [repeat constructor|]. eexists. split; [vm_compute; reflexivity|]. repeat split; vm_compute; reflexivity.
+Qed.
+
+Example C35_nonvacuous_bdi :
+  block_diag_index1 [1; 0; 3] = [0; 1; 2; 3; 1; 2; 3; 1; 2; 3] /\
+  bdi1_spec 0 [1; 0; 3] = [0; 1; 2; 3; 1; 2; 3; 1; 2; 3] /\
+  block_diag_index2 [2; 3; 1]%Z [1; 0; 2]%Z = Ok ([0; 1; 5; 5], [0; 0; 1; 2])%Z /\
+  Forall (fun x => 0 <= x)%Z [1; 0; 2]%Z.
+Proof. split; [|split; [|split]]; try (vm_compute; reflexivity). repeat constructor; lia. Qed.
